@@ -28,6 +28,52 @@ def _snapshot(name, b):
         return ("unencodable", repr(e))
 
 
+def _mutables(o, seen=None, path="", out=None, depth=0):
+    """(path, object) for every mutable object reachable from o (lists, dicts, sets, arrays, instances)"""
+    import enum, datetime
+    seen = {} if seen is None else seen
+    out = [] if out is None else out
+    if depth > 8 or id(o) in seen or o is None or isinstance(o, (str, bytes, int, float, complex, bool, enum.Enum, datetime.datetime, type, np.generic, np.dtype)):
+        return out
+    seen[id(o)] = o
+    if isinstance(o, np.ndarray):
+        out.append((path, o))
+        if o.dtype == object:
+            for idx, x in np.ndenumerate(o):
+                _mutables(x, seen, f"{path}{list(idx)}", out, depth + 1)
+        return out
+    if isinstance(o, (list, tuple)):
+        if isinstance(o, list):
+            out.append((path, o))
+        for i, x in enumerate(o):
+            _mutables(x, seen, f"{path}[{i}]", out, depth + 1)
+        return out
+    if isinstance(o, dict):
+        out.append((path, o))
+        for k, x in o.items():
+            _mutables(x, seen, f"{path}[{k!r}]", out, depth + 1)
+        return out
+    if hasattr(o, "__dict__"):
+        out.append((path, o))
+        for k, x in vars(o).items():
+            _mutables(x, seen, f"{path}.{k}", out, depth + 1)
+    return out
+
+
+def _shared_mutables(a, b):
+    """paths of mutable objects reachable from both a and b (identity, or overlapping array memory)"""
+    ma, mb = _mutables(a), _mutables(b)
+    ids = {id(x): p for p, x in ma}
+    out = [f"{ids[id(y)]} is {q}" for q, y in mb if id(y) in ids]
+    arr_a = [(p, x) for p, x in ma if isinstance(x, np.ndarray) and x.size]
+    for q, y in mb:
+        if isinstance(y, np.ndarray) and y.size:
+            for p, x in arr_a:
+                if x is not y and np.shares_memory(x, y):
+                    out.append(f"{p} shares memory with {q}")
+    return out
+
+
 # ------------------------------------------------------------------------------------------------ C18
 LOOKUP = {"Data3D": ("_tracks", gen.marker_track), "ForceTorque3D": ("_tracks", gen.ft_track), "EMG": ("_signals", gen.emg_track), "Events": ("events", None)}
 
@@ -100,6 +146,15 @@ def check_c18(seed, tier):
                         pass
                     except Exception as e:
                         fails.append(_f("C18", "C18.keytype", name, f"b[{bad!r}] raised {e!r} instead of TypeError", case, seed))
+                # membership supports labels and item objects only: every other key type (positions included) is refused
+                for bad in (0, 1, -1, len(items), 1.5, None, (1,), b"a", True):
+                    try:
+                        r = bad in b
+                        fails.append(_f("C18", "C18.keytype", name, f"`{bad!r} in b` returned {r} instead of raising TypeError", case, seed))
+                    except TypeError:
+                        pass
+                    except Exception as e:
+                        fails.append(_f("C18", "C18.keytype", name, f"`{bad!r} in b` raised {e!r} instead of TypeError", case, seed))
                 for x in items:
                     if x not in b:
                         fails.append(_f("C18", "C18.contains_item", name, "an item of the block is reported as not contained", case, seed))
@@ -122,7 +177,7 @@ def check_c16(seed, tier):
           "EMG": (lambda nf, k: gen.emg(rng, k, nf), lambda nf: gen.emg_track(rng, nf), "addSignal", "_signals")}
     junk = [None, 5, "track", object(), [1, 2], np.zeros((3, 3))]
     for name, (mkb, mkt, add, fld) in mk.items():
-        for nf in (1, 3):
+        for nf in (0, 1, 3):
             for k in (0, 2):
                 # single add: right length, wrong length, wrong kind
                 for what in ["ok", "short", "long"] + list(range(len(junk))) + ["othertrack"]:
@@ -133,7 +188,7 @@ def check_c16(seed, tier):
                     if what == "ok":
                         x = mkt(nf)
                     elif what == "short":
-                        x = mkt(nf + 1) if nf == 1 else mkt(nf - 1)
+                        x = mkt(nf + 1) if nf <= 1 else mkt(nf - 1)
                     elif what == "long":
                         x = mkt(nf + 2)
                     elif what == "othertrack":
@@ -162,12 +217,24 @@ def check_c16(seed, tier):
                 # list assignment: every position of one invalid element
                 for L in (0, 1, 3):
                     for badpos in [None] + list(range(L)):
-                        for badkind in (["short", "junk", "othertrack"] if badpos is not None else ["-"]):
+                        for badkind in (["short", "junk", "othertrack", "twin"] if badpos is not None else ["-"]):
                             b = mkb(nf, k)
                             old_list = getattr(b, fld)
                             old_items = list(old_list)
                             vals = [mkt(nf) for _ in range(L)]
-                            if badpos is not None:
+                            if badkind == "twin":
+                                # a wrong-length look-alike of a track the block already holds: same label, the same constant
+                                # samples, another number of frames (anything comparing tracks loosely takes it for the original)
+                                if not old_items or nf == 0:
+                                    continue
+                                t0 = old_items[0]
+                                arrs = [a for a in vars(t0).values() if isinstance(a, np.ndarray)]
+                                for a in arrs:
+                                    a[...] = 1.5
+                                rows = nf + 1 if nf == 1 else 1
+                                twin_t = type(t0)(t0.label, *[np.full((rows,) + a.shape[1:], 1.5, dtype=a.dtype) for a in arrs])
+                                vals[badpos] = twin_t
+                            elif badpos is not None:
                                 vals[badpos] = mkt(nf + 1) if badkind == "short" else ("junk" if badkind == "junk" else gen.emg_track(rng, nf))
                             case = dict(block=name, frames=nf, prior=k, assign=L, badpos=badpos, badkind=badkind)
                             n += 1
@@ -265,12 +332,92 @@ def check_c20(seed, tier):
                 fails.append(_f("C20", "C20.shared", name, f"after b.{attr} = a.{attr}, adding an item to b changed a", case, seed))
         except Exception as e:
             fails.append(_f("C20", "C20.exception", name, f"unexpected {e!r}", case, seed))
+    # decode-twice on generated blocks of every shape (tracks without any present frame included): no mutable object is
+    # reachable from both results, and a deep in-place edit of one leaves the other's content alone
+    from harness import edits
+    reps = 10 if tier == "quick" else 60
+    for name in makers:
+        for i in range(reps):
+            r_ = random.Random(f"{seed}:c20dec:{name}:{i}")
+            n += 1
+            case = dict(block=name, scenario="decode twice, edit one in depth", index=i)
+            try:
+                if name in gen.TRACK_BLOCK.values() or name in ("Data3D", "EMG", "ForceTorque3D", "PlatformsData"):
+                    k = r_.randint(1, 3)
+                    nfr = 4          # the frame count the item factories of `makers` use
+                    masks = [[False] * nfr if r_.random() < 0.4 else gen.mask(r_, nfr) for _ in range(k)]
+                    src = {"Data3D": gen.data3d, "EMG": gen.emg, "ForceTorque3D": gen.ft3d, "PlatformsData": gen.plats_data}[name](r_, k, nfr, masks=masks)
+                else:
+                    src = gen.BLOCK_GEN[name](r_)
+                raw = real_write(name, src)
+                r1 = real_build(name, io.BytesIO(raw), src)
+                r2 = real_build(name, io.BytesIO(raw), src)
+                shared = _shared_mutables(r1, r2)
+                if shared:
+                    fails.append(_f("C20", "C20.decode_shared", name, f"two decodes of the same bytes share mutable state: {shared[:3]}", case, seed))
+                s2, w2 = _snapshot(name, r2), real_write(name, r2)
+                edits.edit_in_place(name, r1, r_)
+                mutate_ = makers[name][1]
+                mutate_(r1)
+                if _snapshot(name, r2) != s2 or real_write(name, r2) != w2:
+                    fails.append(_f("C20", "C20.decode_shared", name, "editing one decode of some bytes changed the other decode", case, seed))
+                r3 = real_build(name, io.BytesIO(raw), src)
+                if _snapshot(name, r3) != s2:
+                    fails.append(_f("C20", "C20.decode_shared", name, "a later decode of the same bytes differs after an earlier decode was edited", case, seed))
+            except Exception as e:
+                fails.append(_f("C20", "C20.exception", name, f"unexpected {e!r}", case, seed))
+            if len(fails) > 10:
+                break
+    # the same block read twice through a file (one context, two contexts, getters): independent objects
+    import os, shutil, tempfile
+    from basictdf import Tdf
+    d = tempfile.mkdtemp(prefix="verif_c20_")
+    try:
+        p = os.path.join(d, "f.tdf")
+        Tdf.new(p)
+        r_ = random.Random(f"{seed}:c20file")
+        blocks = {"Events": gen.events(r_, 2), "EMG": gen.emg(r_, 2, 4), "Data3D": gen.data3d(r_, 2, 4, masks=[[False] * 4, gen.mask(r_, 4)])}
+        with Tdf(p).allow_write() as t:
+            for b in blocks.values():
+                t.add_block(b)
+        for name, blk in blocks.items():
+            for how in ("same context, get_block twice", "same context, by type then by index", "two contexts", "no context"):
+                n += 1
+                case = dict(block=name, scenario="read twice through a file: " + how)
+                try:
+                    t = Tdf(p)
+                    if how == "same context, get_block twice":
+                        with t:
+                            x, y = t.get_block(blk.type), t.get_block(blk.type)
+                    elif how == "same context, by type then by index":
+                        with t:
+                            idx = [e.type for e in t.entries].index(blk.type)
+                            x, y = t.get_block(blk.type), t.get_block(idx)
+                    elif how == "two contexts":
+                        with t:
+                            x = t.get_block(blk.type)
+                        with t:
+                            y = t.get_block(blk.type)
+                    else:
+                        x, y = t.get_block(blk.type), t.get_block(blk.type)
+                    shared = _shared_mutables(x, y)
+                    if x is y or shared:
+                        fails.append(_f("C20", "C20.decode_shared", name, f"the same block read twice ({how}) gives objects that share mutable state: {'same object' if x is y else shared[:3]}", case, seed))
+                    s2 = _snapshot(name, y)
+                    edits.edit_in_place(name, x, r_)
+                    makers[name][1](x)
+                    if _snapshot(name, y) != s2:
+                        fails.append(_f("C20", "C20.decode_shared", name, f"editing a block read from a file changed the second read of it ({how})", case, seed))
+                except Exception as e:
+                    fails.append(_f("C20", "C20.exception", name, f"unexpected {e!r}", case, seed))
+    finally:
+        shutil.rmtree(d, ignore_errors=True)
     # event values
     n += 1
     e1, e2 = Event("a"), Event("b")
     if e1.values is e2.values:
         fails.append(_f("C20", "C20.shared", "Event", "two events built without values share one array", dict(block="Event"), seed))
-    return dict(what="independence of separately created / decoded blocks (real code)", cases=n, label="bounded", bound="7 block classes x construct/mutate/decode interleavings"), fails
+    return dict(what="independence of separately created / decoded blocks (real code)", cases=n, label="bounded", bound="7 block classes x construct/mutate/decode interleavings; decode-twice with reachability of shared mutable state on generated blocks; 3 block types x 4 ways of reading twice through a file"), fails
 
 
 # ------------------------------------------------------------------------------------------------ C19
